@@ -481,6 +481,10 @@ pub fn run(_kind: &str, ctx: &Ctx, out: &mut dyn Write) {
                 "count a -2147483648", "count a -2147483648 v 1", "count a -2147483648..-2147483647",
                 "enum l 1", "enum l 18446744073709551615", "enum l 18446744073709551615",
                 "enum l 18446744073709551614", "enum",
+                // finding K12 / repair F19: the cursor belongs to the SET of assumed literals, every
+                // spelling continues the same cycle (the model's answer text is compared exactly)
+                "enum a 1 l 1", "enum a 1 1 l 1", "enum a 1 l 1", "enum a 1 1 1 l 2", "enum a -2 1 l 1",
+                "enum a 1 -2 1 -2 l 1", "enum a -2 -2 1 l 1", "enum a 1 l 1",
             ] {
                 push(&mut entries, 'g', l.to_string(), &mut skipped);
             }
